@@ -3,6 +3,7 @@ CONSTANTS
   Clients <- E2Clients
   Reqs <- E2Reqs
   Bg = "none"
+  Pool <- NoPool
   Handoff = TRUE
   NotifyOnEof = FALSE
 INVARIANT FailOnlyWhenGone
